@@ -34,6 +34,11 @@ def by_id(fid):
     return None
 
 
+def _quiet(it):
+    """plan items at which the engine has run until it had nothing left to do"""
+    return bool(it) and (it[0] == "Q" or (it[0] == "X" and it[1] in ("settle", "quiet_restart")))
+
+
 def user_ops(case):
     return [it for it in case.get("plan", []) if it and it[0] == "U"]
 
@@ -101,7 +106,7 @@ def _unquiesced_related(case, is_trigger, other_side_only=False):
             if j == i:
                 continue
             lo, hi = min(i, j), max(i, j)
-            if any(it and it[0] == "Q" for it in plan[lo + 1:hi]):
+            if any(_quiet(it) for it in plan[lo + 1:hi]):
                 continue
             if other_side_only and u[1] == t[1]:
                 continue
@@ -156,7 +161,7 @@ def _vacated_name_reuse(case):
         for j, r2 in rn[a + 1:]:
             if r2[1] != r1[1] or r2[4] != r1[3]:
                 continue
-            if any(it and it[0] == "Q" for it in plan[i + 1:j]):
+            if any(_quiet(it) for it in plan[i + 1:j]):
                 continue
             out.update(_op_paths(r1))
             out.update(_op_paths(r2))
@@ -190,7 +195,7 @@ def m_dirdelete_race(f, case, viol):
             if j == i or not u or u[0] != "U":
                 continue
             lo, hi = min(i, j), max(i, j)
-            if any(it and it[0] == "Q" for it in plan[lo + 1:hi]):
+            if any(_quiet(it) for it in plan[lo + 1:hi]):
                 continue
             if u[2] == "mkdir" or any(_related(d[3], q) for q in _op_paths(u)):
                 rel.add(d[3])
@@ -218,7 +223,7 @@ def m_dup_folder_discard(f, case, viol):
         idx = [i for i, it in enumerate(plan) if it and it[0] == "U" and it[3] == P and it[2] in ("mkdir", "rmtree", "rmdir")]
         mk = [i for i in idx if plan[i][2] == "mkdir"]
         dl = [i for i in idx if plan[i][2] != "mkdir"]
-        if len(mk) >= 2 and dl and not any(it and it[0] == "Q" for it in plan[idx[0]:idx[-1]]):
+        if len(mk) >= 2 and dl and not any(_quiet(it) for it in plan[idx[0]:idx[-1]]):
             cands.add(P)
     if not cands:
         return False
@@ -400,7 +405,7 @@ def m_request_stale_entry(f, case, viol):
             # (an 'S 1' not limited by a preceding 'E 1 k') and no run-to-quiet between the re-creation and the request
             for k in range(j + 1, len(plan)):
                 w = plan[k]
-                if w and w[0] == "Q":
+                if _quiet(w):
                     break
                 if w and w[0] == "S" and w[1] == 1 and not (plan[k - 1] and plan[k - 1][0] == "E" and plan[k - 1][1] == 1) and not faulty:
                     break       # (in runs with injected faults an intake may have failed: there only a run-to-quiet counts)
@@ -562,7 +567,7 @@ def m_moved_out_race(f, case, viol):
             if j == m[0] or not u or u[0] not in ("U", "A") or u[1] == m[1]:
                 continue
             lo, hi = min(j, m[0]), max(j, m[0])
-            if any(it and it[0] == "Q" for it in plan[lo + 1:hi]):
+            if any(_quiet(it) for it in plan[lo + 1:hi]):
                 continue
             qs = _op_paths(u)
             if u[0] == "A":     # account paths of the peer: keep those inside its root, relative to it
